@@ -577,7 +577,16 @@ func RunC10(ep *core.Episode) {
 							dT = 0
 						}
 						bound := time.Duration(attempts)*(waitT+2*dT+per) + time.Duration(attempts)*retryDelay + time.Millisecond
-						if d := cl.end.Sub(cl.start); d > bound {
+						d := cl.end.Sub(cl.start)
+						if cl.timeoutT == 0 {
+							// a read timeout says nothing about how long connecting may take: time this call spent in dials is not counted
+							for _, dl := range dialer.Dials {
+								if dl.By == name && !dl.Started.Before(cl.start) && !dl.Ended.IsZero() {
+									d -= dl.Ended.Sub(dl.Started)
+								}
+							}
+						}
+						if d > bound {
 							ep.Fail("C10.timeout", "call %s (request timeout %v, read timeout %v) returned after %v of simulated time, bound %v (err=%v)", cl.id, cl.timeoutT, readT, d, bound, err)
 						}
 					}
